@@ -584,6 +584,55 @@ def chain_case(r):
     return c
 
 
+def chain_retry(ctx):
+    """a caller that survives the first mismatch (a file-by-file verifier collecting failures) and asks the same loader object again:
+    every question whose answer needs the broken link fails again; none is answered from the Manifests above it"""
+    import gemato.recursiveloader as rl
+    import gemato.exceptions as ge
+    import common
+    r = ctx.rng('c02retry')
+    n = asked = 0
+    with ET.Scratch() as sc:
+        for _ in range(250 if ctx.tier == 'quick' else 2500):
+            c = chain_case(r)
+            if not c.meta['changed'] or c.meta['unsupported']:
+                continue
+            D, dirs = c.meta['depth'], c.meta['dirs']
+            inside = [dirs[D] + '/f', dirs[D] + '/g%d' % D, dirs[D] + '/added', dirs[D] + '/absent']
+            b, s = sc.fresh()
+            log = []
+            try:
+                c.tree.realise(b, s)
+                with ET.ScandirOrder(GT.order_key_for(c.meta['order_seed'])), common.watchdog(30):
+                    m = rl.ManifestRecursiveLoader(os.path.join(b, 'Manifest'), verify_openpgp=False, **r.choice([{}, {'max_jobs': 1}]))
+                    for _q in range(r.randint(2, 5)):
+                        api = r.choice(['find_path_entry', 'verify_path', 'assert_path_verifies', 'find_dist_entry', 'assert_directory_verifies'])
+                        p = r.choice(inside)
+                        try:
+                            if api == 'find_dist_entry':
+                                res = m.find_dist_entry('dist.tar', dirs[D])
+                            elif api == 'assert_directory_verifies':
+                                p = dirs[r.randint(c.meta['k'], D)]
+                                res = m.assert_directory_verifies(p)
+                            else:
+                                res = getattr(m, api)(p)
+                            log.append([api, p, 'returned', repr(res)[:80]])
+                        except (ge.GematoException, OSError) as e:
+                            log.append([api, p, 'raised', type(e).__name__])
+            except common.CaseTimeout:
+                log.append(['-', '-', 'raised', 'DidNotTerminate'])
+            finally:
+                sc.cleanup(b, s)
+            n += 1
+            asked += len(log)
+            bad = [x for x in log if x[2] == 'returned']
+            if bad:
+                ctx.violation('spec', f'after {c.meta["mutations"][0]} below the untouched level {c.meta["k"] - 1}, on one loader object: {bad[0][0]}({bad[0][1]}) '
+                              f'returned {bad[0][3]} (call {log.index(bad[0]) + 1} of {len(log)}; the earlier ones raised) although {c.meta["broken"]} does not match its MANIFEST entry',
+                              {'meta': {k: v for k, v in c.meta.items() if k != 'paths'}, 'calls': log, 'tree': describe(c.tree)})
+    ctx.count('tree:chain-retry', n, n, dist={'questions_asked': asked})
+
+
 def c02(ctx):
     res = c01_impl(ctx, 2500, 25000, chain_case, 'tree:chain-tamper',
                    'tampering below an untouched Manifest: result differs from the reference (C02)')
@@ -609,6 +658,7 @@ def c02(ctx):
                           f'{c.meta["api"]}: {str(x)[:200]} (expected a mismatch for {c.meta["broken"]})',
                           {'meta': {k: v for k, v in c.meta.items() if k != 'paths'}, 'ops': c.ops, 'impl': i, 'tree': describe(c.tree)})
     ctx.cov['engines']['tree:chain-tamper']['tamperings_detected_at_the_broken_link'] = detected
+    chain_retry(ctx)
     # the same through the command-line tool: a broken chain never ends with exit status 0, with or without --keep-going
     r = ctx.rng('c02cli')
     n = ok = 0
